@@ -13,18 +13,37 @@
   They are needed because the parser's offset arithmetic is 64-bit (`alignGo` wraps) while
   `Faithful` is stated with plain round-up.
 
+  Follow-up wp-c04b: nothing in the tree is opaque any more —
+    * NVAR stores (`File.NVarStore`): `parse_faithful_nvar` / `parse_c10_faithful` (the store the tree reports
+      for a RAW/NVAR file is C10's `NewNVarStore` on the file's bytes under the erase polarity of its volume,
+      which is uniform over the tree; the second one is about the concrete function `parseC10` the driver
+      runs and has no hypothesis on the hook) + `nvar_store_faithful` (that store is faithful to the bytes: entries tile it, every
+      reported field is the bytes at its offset, GUID table = the last 16·n bytes reversed, free space
+      erased, nested stores recursively) + corollaries;
+    * ME partition table (`MERegion.FPT`): `parse_faithful_me`;
+    * completeness of the file walk: `volume_covered` (+ `unrepaired_walk_refuted`: the `decide`d witness on
+      which the walk before commit cce350a — known finding F52 — drops a 24-byte file).
+  Predicates: Uefi/Faithful.lean (`WalkEnd`, `NvFileOk`, `RegionInner` are clauses of `Faithful` itself),
+  Uefi/FaithfulNvar.lean (`NvF`), Uefi/FaithfulMe.lean (`FptF`), Uefi/FaithfulNvarTree.lean (`TreeD`).
+
   Not expressible in a pure model (carried by the correspondence harness only, see checks.d/C04.json
-  `unproved`): independence of `uefi.ReadOnly`, and "parsing never modifies the caller's buffer".
+  `unproved`): independence of `uefi.ReadOnly`, and "parsing never modifies the caller's buffer" — T1 now
+  pins the inventory of byte-slice writes and their `ReadOnly` guards (Uefi/TieC04.lean `tie_writes_*`).
 -/
 import FianoModel.Uefi.FaithfulCor
+import FianoModel.Uefi.FaithfulCover
+import FianoModel.Uefi.FaithfulNvarTree
 import FianoModel.Uefi.UnfixedC04
 import FianoModel.Uefi.SampleC04
 import FianoModel.Uefi.TieC04
 import FianoModel.Uefi.CodeTie   -- T1 code-as-code tie (wp-t1x): audited as a tie module of this check
+import FianoModel.Nvram.Tie      -- T1 of the NVAR model (C10's): the model is inside this property's theorem now,
+import FianoModel.Nvram.TieLogic --   so its ties are rebuilt and audited by this check as well
+import FianoModel.Nvram.CodeTie
 
 namespace Fiano.Uefi.C04
 open FaithfulAux
-open Fiano Fiano.Uefi
+open Fiano Fiano.Uefi Fiano.Uefi.Cover Fiano.Uefi.Deep
 
 /-! ### the central theorem -/
 
@@ -121,11 +140,170 @@ theorem sections_in_file (h : Hooks) (i : FileInfo) (buf : Bytes) (secs : List S
         p.1.buf = slice buf p.2.1 (p.2.2 - p.2.1)) ∧
     (secSpans secs i.dataOffset).Pairwise (fun a b => a.2 ≤ b.1) := by
   unfold FileF at hf
-  obtain ⟨_, _, _, hsecs⟩ := hf
+  obtain ⟨_, _, _, _, hsecs⟩ := hf
   split at hsecs
   · obtain ⟨h1, h2, _⟩ := secs_spans h _ _ _ _ hsecs
     exact ⟨h1, h2⟩
   · rw [hsecs]; exact ⟨fun _ hm => by simp [secSpans] at hm, List.Pairwise.nil⟩
+
+/-! ### follow-up wp-c04b: NVAR stores -/
+
+/-- **C04, NVAR part** `parse_faithful_nvar`: whenever `uefi.Parse` returns `(t, st')` under hooks whose
+    NVAR parser is C10's `NewNVarStore` at the final erase polarity `st'.pol`, then `t` is faithful
+    (`Faithful`, which says: a store is reported exactly for a RAW file with the NVAR GUID and is the hook's
+    answer on `buf[DataOffset:]`), every volume of the tree has erase polarity `st'.pol`, and every file
+    node's reported store is (the `(buf, Length)` projection of) `NewNVarStore` under that polarity on the
+    node's own bytes (`TreeD`).  What that store looks like: `nvar_store_faithful`. -/
+theorem parse_faithful_nvar (h : Hooks) (fuel : Nat) (bs : Bytes) (st st' : St) (t : Tree) (hlen : GoLen bs)
+    (hcodec : h.BoundedCodecs) (hp : parseWith h fuel bs st = .ok (t, st')) (hnv : h.NvIsC10 st'.pol) :
+    Faithful h t bs ∧ TreeD st'.pol t :=
+  ⟨Fiano.Uefi.parseWith_faithful h hcodec fuel bs st t st' hlen hp, parseWith_deep h fuel bs st st' t hp hnv⟩
+
+/-- **C04 with the real NVAR parser, no hook left to assume** `parse_c10_faithful`: `parseC10` is
+    `uefi.Parse` with C10's `NewNVarStore` plugged in (it finds the erase polarity the stores are parsed
+    under by running the parse and checks it by a second run) — the very function the driver `drv_c04`
+    answers with, so it is what T2 compares with the Go code.  Whatever it returns — from any process state,
+    for any budget — is a faithful tree under the hooks it actually used, every volume has the polarity `p`
+    it reports, and every file node's reported store is `NewNVarStore` under `p` on the node's own bytes.
+    (The codec table `h0` stays a parameter: decompressors are outside the model.) -/
+theorem parse_c10_faithful (h0 : Hooks) (fuel : Nat) (bs : Bytes) (st : St) (t : Tree) (p : UInt8) (hlen : GoLen bs)
+    (hcodec : h0.BoundedCodecs) (hp : parseC10 h0 fuel bs st = .ok (t, p)) :
+    Faithful (nvHooks h0 p) t bs ∧ TreeD p t :=
+  parseC10_spec h0 hcodec fuel bs st t p hlen hp
+
+/-- one file node of such a tree: either no store is reported and `NewNVarStore` yields none, or the file
+    is RAW with the NVAR GUID, `NewNVarStore` succeeds on `buf[DataOffset:]` with a store `s`, the tree
+    reports `(s.buf, s.Length)`, and `s` — with its nested stores, to every depth — is faithful to those bytes -/
+theorem nvar_file_faithful (p : UInt8) (f : File) (hd : FileD p f) :
+    (f.info.nvar = none ∧ f.nvStore p = none) ∨
+    ∃ s, f.nvStore p = some s ∧ f.info.nvar = some (nvProj s) ∧ f.info.type = 1 ∧ f.info.guid = guidNVAR ∧
+      Nvram.parseStore p.toNat (f.buf.drop f.info.dataOffset) = .ok s ∧
+      ∀ d, NvFaithful.NvFDeep p.toNat d s (f.buf.drop f.info.dataOffset) :=
+  nvar_node p f hd
+
+/-- **`NewNVarStore` returns a faithful store** — for every byte string, every polarity, every nesting
+    depth `d`: buf = the bytes; the entries tile the store from 0 to `FreeSpaceOffset`, each header field
+    (`Size`, `Next`, `Attributes`) and decoded field (GUID / GUID index, name, `DataOffset`, `NextOffset`,
+    type) is the bytes at its documented offset; the GUID table is the last 16·n bytes reversed; the walk
+    ended on erased bytes or on the table; nested stores likewise (`NvF`, `NvFDeep`). -/
+theorem nvar_store_faithful (pol : Nat) (d : Nat) (b : Bytes) (s : Nvram.Store)
+    (hp : Nvram.parseStore pol b = .ok s) : NvFaithful.NvFDeep pol d s b :=
+  NvFaithful.nv_faithful_deep pol d b s hp
+
+/-- the entries' buffers concatenate to `b[0, FreeSpaceOffset)`, the reported `Offset`s are the running
+    sums of the sizes, `FreeSpaceOffset ≤ |b|`, and the walk ended on erased bytes or on the GUID table -/
+theorem nvar_entries_tile (pol : Nat) (s : Nvram.Store) (b : Bytes) (hf : NvFaithful.NvF pol s b) :
+    (s.entries.map (·.buf)).flatten = b.take s.fso ∧
+    s.entries.map (·.offset) = NvFaithful.entryOffsets s.entries 0 ∧ (s.entries ≠ [] → s.fso ≤ b.length) ∧
+    (s.gso ≤ s.fso ∨ Nvram.isErased pol (slice b s.fso (s.gso - s.fso)) = true) := by
+  obtain ⟨_, _, _, hgso, hE⟩ := hf
+  obtain ⟨_, h2, h3, h4, _, h6⟩ := NvFaithful.entries_tile pol b _ _ _ _ _ _ hE
+  rw [← hgso] at h6
+  refine ⟨?_, h4, h2, h6⟩
+  rw [h3]; simp [slice]
+
+/-- the GUID table, reversed, is `b[GUIDStoreOffset, |b|)`: at most 255 GUIDs, the last 16·n bytes;
+    and it holds exactly as many GUIDs as the entries' indexes ask for -/
+theorem nvar_table (pol : Nat) (s : Nvram.Store) (b : Bytes) (hf : NvFaithful.NvF pol s b) :
+    s.guidStore.reverse.flatten = b.drop s.gso ∧ s.gso + 16 * s.guidStore.length = b.length ∧
+    s.guidStore.length ≤ 255 ∧
+    (s.guidStore.length = 0 ∨ ∃ v ∈ s.entries, ∃ i, v.guidIndex = some i ∧ s.guidStore.length = i + 1) := by
+  obtain ⟨_, _, hT, hgso, hE⟩ := hf
+  refine ⟨by rw [hgso]; exact NvFaithful.table_bytes b _ hT, by have := hT.1; omega, hT.2.1, ?_⟩
+  exact NvFaithful.table_minimal pol b _ _ _ _ _ _ hE
+
+/-- an entry that reports GUID index `i` reports entry `i` of the final GUID table, i.e. the 16 bytes
+    `b[|b| − 16(i+1), |b| − 16i)`, or the zero GUID — the latter only for index 255 or a table that would
+    not fit into the store -/
+theorem nvar_guid_index (pol : Nat) (s : Nvram.Store) (b : Bytes) (hf : NvFaithful.NvF pol s b) :
+    ∀ v ∈ s.entries, ∀ i, v.guidIndex = some i →
+      (s.guidStore[i]? = some v.guid ∧ v.guid = Nvram.guidAt b i) ∨
+      (v.guid = Nvram.zeroGuid ∧ (i = 255 ∨ b.length < 16 * (i + 1))) := by
+  obtain ⟨_, _, hT, _, hE⟩ := hf
+  intro v hv i hi
+  cases NvFaithful.guid_index_resolves pol b _ _ _ _ _ _ hE hT.2.1 v hv i hi with
+  | inl h => exact Or.inl ⟨by rw [hT.2.2 i h.1, h.2], h.2⟩
+  | inr h => exact Or.inr h
+
+/-- when the entries end at or before the GUID table, the store is entries ++ free space (the polarity
+    byte) ++ reversed table and nothing else — the layout C10's `Assemble` writes -/
+theorem nvar_store_partition (pol : Nat) (s : Nvram.Store) (b : Bytes) (hf : NvFaithful.NvF pol s b)
+    (hle : s.fso ≤ s.gso) :
+    b = (s.entries.map (·.buf)).flatten ++ List.replicate (s.gso - s.fso) (UInt8.ofNat pol) ++
+        s.guidStore.reverse.flatten :=
+  (NvFaithful.store_partition pol s b hf hle).1
+
+/-- the quirk that makes `fso ≤ gso` a hypothesis above: `NewNVarStore` accepts a 29-byte store whose
+    only entry fills it and whose GUID index 0 turns the entry's own last 16 bytes into the GUID table
+    (`FreeSpaceOffset` 29 > `GUIDStoreOffset` 13); reproduced on the real code, see reports/C04.md -/
+theorem nvar_overlap_witness :
+    (match Nvram.parseStore 0xFF NvFaithful.overlapStore with
+     | .ok s => (s.fso, s.gso, s.entries.map (fun v => (v.offset, v.size, v.guid == Nvram.content v)))
+     | .error _ => (0, 0, [])) = (29, 13, [(0, 29, true)]) :=
+  NvFaithful.overlap_witness
+
+/-- the extended header of an entry (`ExtOffset`, `ExtAttributes`, `Checksum`, `TimeStamp`, `Hash`): the
+    model `extFields` of `parseExtendedHeader` succeeds exactly when C10's `extOk` says so, and the fields
+    it reports are the bytes at their documented offsets -/
+theorem nvar_ext_fields (attrs size : Nat) (buf : Bytes) (hlen : buf.length = size) (h10 : 10 ≤ size) :
+    (NvFaithful.extFields attrs size buf).2 = Nvram.extOk attrs size buf ∧
+    (Nvram.hasBit attrs Nvram.aExtHdr = true → NvFaithful.rdAt buf (size - 2) 2 ≤ size - 10 →
+      NvFaithful.ExtF size buf (NvFaithful.extFields attrs size buf).1) :=
+  ⟨NvFaithful.extFields_ok attrs size buf hlen, NvFaithful.extFields_at attrs size buf hlen h10⟩
+
+/-! ### follow-up wp-c04b: ME partition table -/
+
+/-- **C04, ME part** `parse_faithful_me`: in every flash image `uefi.Parse` accepts, an ME region's
+    buffer is the input slice named by entry 1 of the descriptor's region table, and whenever `NewMEFPT`
+    finds a table in it (`MERegion.FPT ≠ nil`): `$FPT` is the first occurrence of the signature,
+    `PartitionCount` the 4 bytes behind it, `PartitionMapStart` = signature + 32, there are exactly
+    `PartitionCount` entries, entry k is the 32-byte record at `PartitionMapStart + 32·k` field by field,
+    the table buffer is region[0, PartitionMapStart + 32·count) inside the region, and
+    `FreeSpaceOffset` is the largest end of a partition with a valid offset. -/
+theorem parse_faithful_me (h : Hooks) (bs : Bytes) (f : Flash) (hlen : GoLen bs) (hcodec : h.BoundedCodecs)
+    (hp : parse h bs = .ok (.flash f)) :
+    ∀ r ∈ f.regions, ∀ b fr, r = .me b fr →
+      b = slice bs fr.baseOffset b.length ∧ fr.baseOffset + b.length ≤ bs.length ∧
+      fr.endOffset = fr.baseOffset + b.length ∧ f.ifd.region.regions[1]? = some fr ∧ Me.MeBufF b :=
+  me_region h f bs (parse_faithful h bs _ hlen hcodec hp)
+
+/-- `NewMEFPT` on any byte string -/
+theorem mefpt_faithful (rbuf : Bytes) (fp : Me.FPT) (hp : Me.newFPT rbuf = some fp) : Me.FptF fp rbuf :=
+  Me.fpt_faithful rbuf fp hp
+
+/-! ### follow-up wp-c04b: completeness of the file walk ("nothing dropped") -/
+
+/-- **C04, covering** `volume_covered`: in a volume of a parsed file system (FFSv2/v3), with `e` the end
+    of the last file: `DataOffset + Σ gaps + Σ sizes = e`, every gap an alignment gap (< 8); and either
+    an erased file header sits at the next 8-aligned offset and `e + gap + FreeSpace = Length` (files,
+    gaps and free space cover `[DataOffset, Length)`), or `FreeSpace = 0` and fewer than 24 bytes are
+    left behind `e`.  (Model as repaired by fixes/C03-header-only-last-file.diff, commit cce350a.) -/
+theorem volume_covered (h : Hooks) (i : FvInfo) (buf : Bytes) (files : List File) (data : Bytes)
+    (hv : FvF h (.mk i buf files) data) (hfs : i.fsGuid = guidFFS2 ∨ i.fsGuid = guidFFS3) :
+    let e := fileEnd files i.dataOffset
+    e = i.dataOffset + (fileGaps files i.dataOffset).sum + (files.map (·.info.extSize)).sum ∧
+    (∀ g ∈ fileGaps files i.dataOffset, g < 8) ∧
+    ((up8 e < i.length ∧ FreeHeader (buf.drop (up8 e)) ∧ up8 e - e < 8 ∧ e + (up8 e - e) + i.freeSpace = i.length) ∨
+     (i.freeSpace = 0 ∧ i.length < e + 24)) :=
+  Fiano.Uefi.Cover.volume_covered h i buf files data hv hfs
+
+set_option maxRecDepth 8192 in
+/-- the file walk BEFORE commit cce350a (`offset < Length − 24`, strict; known finding F52) violates the
+    covering clause: on a 128-byte witness it returns one file [72,104) and `FreeSpace = 0`, which is not a
+    `WalkEnd` (24 bytes are left, and they are a complete header-only file); the repaired rule returns
+    both files, [72,104) and [104,128) -/
+theorem unrepaired_walk_refuted :
+    (match F52.parseFilesStrict Hooks.none 64 F52.witness 72 104 128 {} with
+     | .ok (fs, free, _) => (fileSpans fs 72, fileEnd fs 72, free)
+     | .error _ => ([], 0, 1)) = ([(72, 104)], 104, 0) ∧
+    ¬ WalkEnd F52.witness 104 0 ∧
+    (match fileHeader (F52.witness.drop 104) with
+     | .ok (some i) => (i.type, i.extSize, i.dataOffset)
+     | _ => (0, 0, 0)) = (0xF0, 24, 24) ∧
+    (match parseFv Hooks.none 65 F52.witness 0 false {} with
+     | .ok (v, _) => (v.info.length, v.info.freeSpace, fileSpans v.files v.info.dataOffset, fileEnd v.files v.info.dataOffset)
+     | .error _ => (0, 0, [], 0)) = (128, 0, [(72, 104), (104, 128)], 128) :=
+  ⟨F52.strict_result, F52.strict_not_covered, F52.tail_is_a_file.1, F52.repaired_result⟩
 
 /-! ### the unrepaired rule is refuted (DESIGN.md §8 row 18) -/
 
@@ -184,5 +362,73 @@ theorem sampleFlash_faithful : ∃ t, parse hooks sampleFlash = .ok t ∧ Faithf
   match hp : parse hooks sampleFlash with
   | .ok t => exact ⟨t, rfl, parse_faithful hooks sampleFlash t (by decide +kernel) hooks_bounded hp⟩
   | .error _ => rw [hp] at hs; cases hs
+
+/-! ### non-vacuity of the follow-up theorems -/
+
+set_option maxRecDepth 16384 in
+/-- the 320-byte NVAR sample parses (with C10's parser as the hook) into a RAW file whose store has six
+    entries — full (GUID index), full (inline GUID, UCS-2 name, extended header), link, data, invalid,
+    full with a nested one-entry store — `FreeSpaceOffset` 143, `GUIDStoreOffset` 152, two GUIDs -/
+theorem sampleNv_parses :
+    (match parse hooksNv sampleNv with
+     | .ok t => nvShape t
+     | .error _ => []) =
+      [[[143, 152, 2], [4, 0, 16, 13, 0], [4, 16, 43, 30, 0], [2, 59, 14, 13, 0], [3, 73, 12, 10, 0],
+        [0, 85, 13, 10, 0], [4, 98, 45, 13, 2]]] := by
+  rw [parse_eval]; decide +kernel
+
+set_option maxRecDepth 16384 in
+theorem sampleNv_pol :
+    (match parseWith hooksNv (defaultFuel sampleNv) sampleNv {} with
+     | .ok (_, st) => st.pol
+     | .error _ => 0) = 0xFF := by
+  rw [← parseWith_eval]; decide +kernel
+
+/-- the hypotheses of `parse_faithful_nvar` are inhabited by that sample (the hook is C10's parser at
+    the polarity the parse ends with), so its conclusion holds for a tree that does carry a store -/
+theorem sampleNv_faithful :
+    ∃ t st', parseWith hooksNv (defaultFuel sampleNv) sampleNv {} = .ok (t, st') ∧ hooksNv.NvIsC10 st'.pol ∧
+      Faithful hooksNv t sampleNv ∧ TreeD st'.pol t := by
+  have hs := sampleNv_pol
+  match hp : parseWith hooksNv (defaultFuel sampleNv) sampleNv {} with
+  | .ok (t, st') =>
+    rw [hp] at hs
+    have hpol : st'.pol = 0xFF := hs
+    have hnv : hooksNv.NvIsC10 st'.pol := by rw [hpol]; exact nvHooks_isC10 hooks 0xFF
+    obtain ⟨h1, h2⟩ := parse_faithful_nvar hooksNv _ sampleNv {} st' t (by decide +kernel) hooksNv_bounded hp hnv
+    exact ⟨t, st', rfl, hnv, h1, h2⟩
+  | .error _ => rw [hp] at hs; cases hs
+
+set_option maxRecDepth 16384 in
+/-- `parseC10` accepts the NVAR sample and reports polarity 0xFF: `parse_c10_faithful` is not vacuous -/
+theorem sampleNv_c10 :
+    (match parseC10 hooks (defaultFuel sampleNv) sampleNv {} with
+     | .ok (t, p) => (p, nvShape t)
+     | .error _ => (0, [])) =
+      (0xFF, [[[143, 152, 2], [4, 0, 16, 13, 0], [4, 16, 43, 30, 0], [2, 59, 14, 13, 0], [3, 73, 12, 10, 0],
+        [0, 85, 13, 10, 0], [4, 98, 45, 13, 2]]]) := by
+  unfold parseC10
+  simp only [← parseWith_eval]
+  decide +kernel
+
+/-- `NewMEFPT` finds the table of the 112-byte ME sample: count 2, map start 48, buffer 112 bytes, free
+    space offset 0x600; entries FTPR (0x400 + 0x200) and MFS (offset FFFFFFFF = not valid) -/
+theorem sampleMe_parses :
+    meShape sampleMe = [[2, 48, 112, 1536], [0x52505446, 0x314e574f, 1024, 512, 128, 1, 2, 3],
+      [0x0053464d, 0xFFFFFFFF, 4294967295, 256, 1, 0, 0, 0]] := by
+  decide +kernel
+
+set_option maxRecDepth 16384 in
+/-- … also as the ME region of an accepted 16 KiB flash image, so `parse_faithful_me` is not vacuous -/
+theorem sampleFlashMe_parses :
+    (match parse hooks sampleFlashMe with
+     | .ok (.flash f) => f.regions.map (fun r => match r with | .me b _ => meShape b | _ => [])
+     | _ => []) = [[], [[2, 48, 112, 1536], [0x52505446, 0x314e574f, 1024, 512, 128, 1, 2, 3],
+      [0x0053464d, 0xFFFFFFFF, 4294967295, 256, 1, 0, 0, 0]], []] := by
+  rw [parse_eval]; decide +kernel
+
+/-- the first clause of `volume_covered` (free space reached) is inhabited by the sample volume, the
+    second (no room) by the witness of `unrepaired_walk_refuted` under the repaired rule -/
+example : ∃ t, parse hooks sampleBios = .ok t ∧ Faithful hooks t sampleBios := sampleBios_faithful
 
 end Fiano.Uefi.C04
